@@ -281,6 +281,16 @@ def nontrivial(case, impl_out):
     return impl_out.startswith("parse=ok") or impl_out.startswith("ok [") or case.stream.split("-", 1)[1].startswith(("field", "wrapping", "structured"))
 
 
+# interface shared with batotal / packtotal (gen/c05.py)
+def total_cases(rng, tier):
+    return cases(rng, tier)
+
+
+total_oracle = oracle
+total_agree = agree
+total_nontrivial = nontrivial
+
+
 # ----------------------------------------------------------------------------- self test
 def main():
     import random
